@@ -205,6 +205,10 @@ func kidFor(tag string, r *rand.Rand) (string, bool) {
 			s = strings.Replace(s, `"ver":1`, `"ver":1,"ext":{"isNonce":false}`, 1)
 		}
 		return s, false
+	case "near-usage-and-flag-retyped": // two members of the wrong type, the optional one first in the text
+		s := gen.YSSHCAKeyID(gen.KeyIDSpec{HW: true, Touch: 1, TransID: tid, Prins: []string{"u"}})
+		s = strings.Replace(s, `"usage":0,`, ``, 1)
+		return strings.Replace(s, `"isHWKey":true`, `"usage":"all","isHWKey":`+[]string{`"yes"`, `1`, `[true]`}[r.Intn(3)], 1), false
 	case "near-ver-null": // a version member that says nothing: no supported version is declared
 		s := gen.YSSHCAKeyID(gen.KeyIDSpec{HW: true, Touch: 1, TransID: tid, Prins: []string{"u"}})
 		return strings.Replace(s, `"ver":1`, `"ver":null`, 1), false
@@ -252,7 +256,7 @@ func kidFor(tag string, r *rand.Rand) (string, bool) {
 }
 
 // AllKIDs is the full list of KeyID tags.
-var AllKIDs = []string{"touch", "touchless", "firefighter", "inagent", "nonce", "headless", "unknown-type", "regular", "null-prins", "empty-prins", "many-prins", "extra-member", "usage-other", "touch-extreme", "near-missing-field-named-elsewhere", "near-ver-null", "near-ver-retyped", "near-ver257", "near-missing-field", "near-ver2", "near-ver0", "near-conflict", "near-conflict-nonce", "near-conflict-headless-nonce", "near-conflict-headless-ff", "near-conflict-headless-touch", "near-conflict-nonce-touch", "near-trailing-text", "near-two-objects", "near-leading-text", "near-case", "empty", "text"}
+var AllKIDs = []string{"touch", "touchless", "firefighter", "inagent", "nonce", "headless", "unknown-type", "regular", "null-prins", "empty-prins", "many-prins", "extra-member", "usage-other", "touch-extreme", "near-missing-field-named-elsewhere", "near-usage-and-flag-retyped", "near-ver-null", "near-ver-retyped", "near-ver257", "near-missing-field", "near-ver2", "near-ver0", "near-conflict", "near-conflict-nonce", "near-conflict-headless-nonce", "near-conflict-headless-ff", "near-conflict-headless-touch", "near-conflict-nonce-touch", "near-trailing-text", "near-two-objects", "near-leading-text", "near-case", "empty", "text"}
 
 // NewMaterial draws keys and certificates.
 func NewMaterial(r *rand.Rand, cfg Config) *Material {
